@@ -35,13 +35,14 @@ theorem allocRanges_success {s : State} {key subnet : String} {ranges : List (Li
       simp only [List.nil_append] at hpk
       subst hpk
       cases hc : createAll Generated.Ipam.rollbackOnCreateFailure pl (mkRec key a s.clock) picks [] 0 s.store with
-      | mk st eo =>
+      | mk st rest2 =>
+        obtain ⟨eo, kept⟩ := rest2
         rw [hc] at hok
         cases eo with
-        | some e => simp [Out.fail] at hok
+        | some e => simp [allocRangesFinish, Out.fail] at hok
         | none =>
-          simp only
-          obtain ⟨h1, h2, h3⟩ := createAll_ok _ _ _ _ _ _ _ _ hc
+          simp only [allocRangesFinish]
+          obtain ⟨h1, h2, h3⟩ := createAll_ok _ _ _ _ _ _ _ _ _ hc
           have hfr := memAllocAll_frame (mkRec key a s.clock) picks s
           exact ⟨hfa, h2, h1, memAllocAll_alloc _ _ _, memAllocAll_free _ _ _, h3, hfr.1⟩
 
@@ -80,28 +81,36 @@ theorem byKeyAndRanges_after {s' : State} {key : String} {ranges : List (List Ra
 
 /-! ## multi-range allocation: failure -/
 
-theorem allocRanges_failure {s : State} {key subnet : String} {ranges : List (List Range)} {a : Attr}
-    {choice : Option IP} {pl : Plan} (hclean : pl.fails = [] ∨ (pl.fails.length ≤ 1 ∧ FreeUnstored s)) {e : Err}
+/-- per address: untouched, or (its rollback delete failed) allocated to the key in BOTH memory and store -/
+def FailAt (s s' : State) (r : Rec) (j : IP) : Prop :=
+  (s'.alloc.get j = s.alloc.get j ∧ s'.store.get j = s.store.get j ∧ (j ∈ s'.free ↔ j ∈ s.free)) ∨
+  (j ∈ s.free ∧ s.store.get j = none ∧ s'.alloc.get j = some r ∧ s'.store.get j = some r ∧ j ∉ s'.free)
+
+theorem allocRanges_failure_general {s : State} {key subnet : String} {ranges : List (List Range)} {a : Attr}
+    {choice : Option IP} {pl : Plan} {e : Err}
     (he : (allocateInSubnetsAndRanges s key subnet ranges a choice pl).2.err = some e) (hec : e ≠ .crashed) :
-    (allocateInSubnetsAndRanges s key subnet ranges a choice pl).1.alloc = s.alloc ∧
-    (allocateInSubnetsAndRanges s key subnet ranges a choice pl).1.free = s.free ∧
     (allocateInSubnetsAndRanges s key subnet ranges a choice pl).1.pools = s.pools ∧
-    SameStore (allocateInSubnetsAndRanges s key subnet ranges a choice pl).1.store s.store := by
+    (∀ j, FailAt s (allocateInSubnetsAndRanges s key subnet ranges a choice pl).1 (mkRec key a s.clock) j) ∧
+    ((pl.fails = [] ∨ (pl.fails.length ≤ 1 ∧ FreeUnstored s)) →
+      (allocateInSubnetsAndRanges s key subnet ranges a choice pl).1.alloc = s.alloc ∧
+      (allocateInSubnetsAndRanges s key subnet ranges a choice pl).1.free = s.free ∧
+      SameStore (allocateInSubnetsAndRanges s key subnet ranges a choice pl).1.store s.store) := by
+  have hid : ∀ j, FailAt s s (mkRec key a s.clock) j := fun j => Or.inl ⟨rfl, rfl, Iff.rfl⟩
   cases ranges with
   | nil =>
     simp only [allocateInSubnetsAndRanges, allocateInSubnet] at he ⊢
     cases choice with
-    | none => exact ⟨rfl, rfl, rfl, fun _ => rfl⟩
+    | none => exact ⟨rfl, hid, fun _ => ⟨rfl, rfl, fun _ => rfl⟩⟩
     | some ip =>
       simp only at he ⊢
       rcases sCreate_cases pl 0 s.store ip (mkRec key a s.clock) with ⟨e0, _, heq, _⟩ | ⟨_, heq⟩ | ⟨st', heq⟩
-      · rw [heq]; exact ⟨rfl, rfl, rfl, fun _ => rfl⟩
+      · rw [heq]; exact ⟨rfl, hid, fun _ => ⟨rfl, rfl, fun _ => rfl⟩⟩
       · rw [heq] at he; simp at he
       · rw [heq] at he; simp [Out.fail] at he; exact absurd he.symm hec
   | cons rs rest =>
     simp only [allocateInSubnetsAndRanges] at he ⊢
     cases hpick : pickRanges s subnet (rs :: rest) [] with
-    | none => exact ⟨rfl, rfl, rfl, fun _ => rfl⟩
+    | none => exact ⟨rfl, hid, fun _ => ⟨rfl, rfl, fun _ => rfl⟩⟩
     | some picks =>
       rw [hpick] at he
       simp only at he ⊢
@@ -112,22 +121,57 @@ theorem allocRanges_failure {s : State} {key subnet : String} {ranges : List (Li
         intro p hp
         obtain ⟨_, _, hr⟩ := forall₂_mem_left hfa p hp
         exact hr.2.1
-      have hfact : Generated.Ipam.rollbackOnCreateFailure = true := rfl
-      rw [hfact] at he ⊢
+      rw [fact_keeps, fact_rollback'] at he ⊢
       cases hc : createAll true pl (mkRec key a s.clock) picks [] 0 s.store with
-      | mk st eo =>
+      | mk st rest2 =>
+        obtain ⟨eo, kept⟩ := rest2
         rw [hc] at he
         cases eo with
-        | none => simp at he
+        | none => simp [allocRangesFinish] at he
         | some e1 =>
-          simp only [Out.fail, Option.some.injEq] at he
+          simp only [allocRangesFinish, Out.fail, Option.some.injEq, if_true] at he ⊢
           subst he
-          have hcl : pl.fails = [] ∨ (pl.fails.length ≤ 1 ∧ ∀ p ∈ picks, s.store.get p = none) := by
-            rcases hclean with h0 | ⟨h1, h2⟩
-            · exact Or.inl h0
-            · exact Or.inr ⟨h1, fun p hp => h2 p (hfree p hp)⟩
-          have := createAll_fail pl _ picks [] 0 s.store st e1 hc hec (by simpa using hnd (by simp)) (by simp) hcl
-          exact ⟨rfl, rfl, rfl, fun j => by simpa using this j⟩
+          obtain ⟨g1, g2, g3⟩ := createAll_fail pl _ picks [] 0 s.store st e1 kept hc hec (by simpa using hnd (by simp)) (by simp)
+          have hfr := memAllocAll_frame (mkRec key a s.clock) kept s
+          refine ⟨hfr.1, ?_, ?_⟩
+          · intro j
+            by_cases hj : j ∈ kept
+            · right
+              obtain ⟨k1, k2⟩ := g2 j hj
+              have k3 : j ∈ picks ∧ s.store.get j = none := by
+                rcases k2 with k2 | k2
+                · simp at k2
+                · exact k2
+              refine ⟨hfree j k3.1, k3.2, ?_, k1, ?_⟩
+              · show (memAllocAll s (mkRec key a s.clock) kept).alloc.get j = _
+                rw [memAllocAll_alloc, if_pos hj]
+              · show j ∉ (memAllocAll s (mkRec key a s.clock) kept).free
+                rw [memAllocAll_free]; exact fun x => x.2 hj
+            · left
+              refine ⟨?_, by simpa using g1 j hj, ?_⟩
+              · show (memAllocAll s (mkRec key a s.clock) kept).alloc.get j = _
+                rw [memAllocAll_alloc, if_neg hj]
+              · show j ∈ (memAllocAll s (mkRec key a s.clock) kept).free ↔ _
+                rw [memAllocAll_free]; exact ⟨fun x => x.1, fun x => ⟨x, hj⟩⟩
+          · intro hclean
+            have hk : kept = [] := by
+              apply g3
+              rcases hclean with h0 | ⟨h1, h2⟩
+              · exact Or.inl h0
+              · exact Or.inr ⟨h1, fun p hp => h2 p (hfree p hp)⟩
+            subst hk
+            exact ⟨rfl, rfl, fun j => by simpa using g1 j (by simp)⟩
+
+theorem allocRanges_failure {s : State} {key subnet : String} {ranges : List (List Range)} {a : Attr}
+    {choice : Option IP} {pl : Plan} (hclean : pl.fails = [] ∨ (pl.fails.length ≤ 1 ∧ FreeUnstored s)) {e : Err}
+    (he : (allocateInSubnetsAndRanges s key subnet ranges a choice pl).2.err = some e) (hec : e ≠ .crashed) :
+    (allocateInSubnetsAndRanges s key subnet ranges a choice pl).1.alloc = s.alloc ∧
+    (allocateInSubnetsAndRanges s key subnet ranges a choice pl).1.free = s.free ∧
+    (allocateInSubnetsAndRanges s key subnet ranges a choice pl).1.pools = s.pools ∧
+    SameStore (allocateInSubnetsAndRanges s key subnet ranges a choice pl).1.store s.store := by
+  obtain ⟨h1, _, h3⟩ := allocRanges_failure_general he hec
+  obtain ⟨k1, k2, k3⟩ := h3 hclean
+  exact ⟨k1, k2, h1, k3⟩
 
 /-! ## allocations never return an address which has a stored object -/
 
@@ -252,7 +296,7 @@ theorem sDelete_noCrash (pl : Plan) (h1 : pl.crashBefore = none) (h2 : pl.crashA
   · split <;> simp
 
 theorem rollback_noCrash (pl : Plan) (h1 : pl.crashBefore = none) (h2 : pl.crashAfter = none) :
-    ∀ (l : List IP) (n : Nat) (st : Store), (rollback pl l n st).2 = false := by
+    ∀ (l : List IP) (n : Nat) (st : Store), (rollback pl l n st).2.2 = false := by
   intro l
   induction l with
   | nil => intro n st; rfl
@@ -263,7 +307,7 @@ theorem rollback_noCrash (pl : Plan) (h1 : pl.crashBefore = none) (h2 : pl.crash
     exact ih _ _
 
 theorem createAll_noCrash (rb : Bool) (pl : Plan) (r : Rec) (h1 : pl.crashBefore = none) (h2 : pl.crashAfter = none) :
-    ∀ (todo done : List IP) (n : Nat) (st : Store), (createAll rb pl r todo done n st).2 ≠ some Err.crashed := by
+    ∀ (todo done : List IP) (n : Nat) (st : Store), (createAll rb pl r todo done n st).2.1 ≠ some Err.crashed := by
   intro todo
   induction todo with
   | nil => intro done n st; simp [createAll]
@@ -312,11 +356,40 @@ theorem allocRanges_noCrash {s : State} {key subnet : String} {ranges : List (Li
       simp only
       have hnc := createAll_noCrash Generated.Ipam.rollbackOnCreateFailure pl (mkRec key a s.clock) h1 h2 picks [] 0 s.store
       cases hc : createAll Generated.Ipam.rollbackOnCreateFailure pl (mkRec key a s.clock) picks [] 0 s.store with
-      | mk st eo =>
+      | mk st rest2 =>
+        obtain ⟨eo, kept⟩ := rest2
         rw [hc] at hnc
         cases eo with
-        | none => simp
-        | some e => simp only [Out.fail]; intro h; exact hnc (by simpa using h)
+        | none => simp [allocRangesFinish]
+        | some e => simp only [allocRangesFinish, Out.fail]; intro h; exact hnc (by simpa using h)
+
+/-- the mutator never touches the pending watch events -/
+theorem allocRanges_pending {s : State} {key subnet : String} {ranges : List (List Range)} {a : Attr} {choice : Option IP}
+    {pl : Plan} : (allocateInSubnetsAndRanges s key subnet ranges a choice pl).1.pending = s.pending := by
+  cases ranges with
+  | nil =>
+    simp only [allocateInSubnetsAndRanges, allocateInSubnet]
+    cases choice with
+    | none => rfl
+    | some ip =>
+      simp only
+      split <;> rfl
+  | cons rs rest =>
+    simp only [allocateInSubnetsAndRanges]
+    cases hp : pickRanges s subnet (rs :: rest) [] with
+    | none => rfl
+    | some picks =>
+      simp only
+      cases hc : createAll Generated.Ipam.rollbackOnCreateFailure pl (mkRec key a s.clock) picks [] 0 s.store with
+      | mk st rest2 =>
+        obtain ⟨eo, kept⟩ := rest2
+        cases eo with
+        | none => exact (memAllocAll_frame _ _ _).2.1
+        | some e =>
+          simp only [allocRangesFinish]
+          split
+          · exact (memAllocAll_frame _ _ _).2.1
+          · rfl
 
 /-! ## final forms used by the property files -/
 
